@@ -25,7 +25,7 @@ type script struct {
 // a key for client c, request n, with a marker suffix, owned by node 0 (first) or node 1
 func skey(c, n int, sfx string, first bool) []byte {
 	for j := 0; ; j++ {
-		k := "c" + strconv.Itoa(c) + "r" + strconv.Itoa(n) + sfx + "x" + strconv.Itoa(j)
+		k := "c" + strconv.Itoa(c) + "r" + strconv.Itoa(n) + "n" + strconv.Itoa(j) + sfx // the marker last: "mov" + "x.." would read as movx
 		if (int(hashkit.Hash(k)) <= 8191) == first {
 			return []byte(k)
 		}
